@@ -60,7 +60,7 @@ class LogicalSolver:
         with UnitEnvironment(self.env.units):
             operators = {
                 'par': OperatorPar,        # should be the last of parenthesis operators
-                'eq': OperatorEq, 'ne': OperatorNe,
+                'eq': CustomEq, 'ne': CustomNe,
                 'not': CustomNot,          # needs to be after OperatorNe
                 'le': OperatorLe, 'ge': OperatorGe,
                 'lt': OperatorLt, 'gt': OperatorGt,
@@ -72,6 +72,20 @@ class LogicalSolver:
 
 class CustomNot(OperatorNot):
     symbol: str = Sign.NEGATE
+
+class CustomEq(OperatorEq):
+    
+    def operate_binary(self, tokens):
+        # datatypes return plain (numpy) booleans from ==, the solver works with BooleanType
+        left, right = tokens.get_left(), tokens.get_right()
+        tokens.put_left(BooleanType(bool(left == right)))
+
+class CustomNe(OperatorNe):
+    
+    def operate_binary(self, tokens):
+        # inequality is the negation of the (tolerant, unit-aware) equality
+        left, right = tokens.get_left(), tokens.get_right()
+        tokens.put_left(BooleanType(not bool(left == right)))
 
 class CustomAnd(OperatorAnd):
     
